@@ -11,7 +11,7 @@ import vlib
 LEVEL = "model_checking"
 
 SRC = ["h/h_c07.c"]
-N_SETS = 18398          # 216 + 5832 + 7056 + 5184 + 96 + 14 (h_c07.c: N_G1..N_G6)
+N_SETS = 18572          # 216 + 5832 + 7056 + 5184 + 96 + 174 + 14 (h_c07.c: N_G1..N_G7)
 
 
 def build(ck):
@@ -25,7 +25,11 @@ def build(ck):
 
 
 RULE = (
-    "program sets (18398): G1 A<-B [A 8 kinds x B 9 x inherit modifier 3 = 216]; G2 chain A<-B<-E [8 x 9 x 9 x 3 x 3 = 5832]; "
+    "program sets (18572): G7 qualified super calls [T inherits every ordered pair of the file names {a, ba, ab, a_b, b, d1/a, d2/a, d1/ba} "
+    "(suffix, prefix, underscore and same-basename-in-two-directories relations) x {both define f, only the first, only the second} = 168, "
+    "+ {a, ba, d2/a} in all 6 orders; T contains q::f() for every q in {a, ba, ab, a_b, b} that the reference resolver can bind (first "
+    "inherit in order whose file name after the last '/' is q and in which f is found) and ::f(); each is called on blueprint and clone; "
+    "every q that binds nothing is compiled in a program of its own, which must be rejected = 174]; G1 A<-B [A 8 kinds x B 9 x inherit modifier 3 = 216]; G2 chain A<-B<-E [8 x 9 x 9 x 3 x 3 = 5832]; "
     "G3 diamond A<-B, A<-C, D inherits B then C [A in {public,static,private,nomask} x B,C in {absent,prototype,public,static,"
     "private,protected,prototype-before-inherit} x D in {absent,public,private,varargs} x modifiers of D's two inherits 3 x 3, "
     "B->A and C->A plain = 7056]; G4 D inherits unrelated P then Q [8 x 8 x 9 x 3 x 3 = 5184]; G6 diamond plus one level "
@@ -38,7 +42,10 @@ RULE = (
     "blueprint, intermediate blueprint(s), clone of most derived} x names {f, g, absent} x origins {call_other executed for "
     "another object (f_call_other), LPC o->f() in a caller object, apply ORIGIN_DRIVER with the shared-string name and with a C "
     "literal, apply ORIGIN_CALL_OUT, local call through tramp_f, (: f :) through fp_f, function_exists} = 46..60 calls; cold "
-    "result of each; '::f()' from every level and 'P::f()' for each parent probed on every target; the set is compiled a second "
+    "result of each; function pointers made at every level X of the most derived blueprint and of the clone ((: lfX, 'k' :), (: lfX :), "
+    "(: $1 + vX :), (: f :); lfX reads X's variable and makes a local call) evaluated by the driver (call_function_pointer), by evaluate() "
+    "and by a map_array callback in code of every level Y of the owner, by evaluate() in code of every level of the blueprint when the "
+    "owner is the clone, and by another object - all must give the owner's value (--fp); '::f()' from every level and 'P::f()' for each parent probed on every target; the set is compiled a second "
     "time under another path (other program ids) and all cold results compared. Histories: all sequences of length <= L over the "
     "alphabet (+ [a; d], [d; a] and, for L >= 3, [a; d; b] for every call a, b and every call d = a call_other to f issued at the "
     "maximum call depth, so that the callee's frame raises 'Too deep recursion' inside apply_low; after every history the apply "
@@ -104,16 +111,20 @@ def run(ck):
         kw["deadline_s"] = int(kw.get("deadline_s", 0) * k)
         return _enum(exe, args, tag, **kw)
     ck.enum = enum
+    # the 174 qualified-super-call sets are the last but 14 of the enumeration: a part of their own, so that a deadline elsewhere cannot cut them
+    Q0, Q1 = 18384, 18558
     if ck.tier == "quick":
-        ck.enum(ex["h_c07_small_plain"], ["--len=2", "--prune-depth=8", "--salts=1", "--no-compress=1", "--extra=1"], "small-l2", batch=1, deadline_s=70, timeout_ms=T)
-        ck.enum(ex["h_c07_small"], ["--len=1", "--salts=1", "--deep=0", "--extra=0"], "small-l1-asan", batch=1, deadline_s=50, timeout_ms=T)
-        ck.enum(ex["h_c07_full_plain"], ["--len=2", "--salts=1", "--no-compress=1", "--extra=1"], "full-l2", batch=1, deadline_s=42, timeout_ms=T)
-        ck.enum(ex["h_c07_small"], ["--len=1", "--salts=1", "--bin=1", "--deep=0", "--extra=0"], "bin-l1", batch=1, deadline_s=50, timeout_ms=T)
+        ck.enum(ex["h_c07_small"], ["--len=1", "--salts=1", "--from=%d" % Q0, "--to=%d" % Q1], "qualified", batch=1, deadline_s=20, timeout_ms=T)
+        ck.enum(ex["h_c07_small_plain"], ["--len=2", "--prune-depth=8", "--salts=1", "--no-compress=1", "--extra=1"], "small-l2", batch=1, deadline_s=65, timeout_ms=T)
+        ck.enum(ex["h_c07_small"], ["--len=1", "--salts=1", "--deep=0", "--extra=0"], "small-l1-asan", batch=1, deadline_s=45, timeout_ms=T)
+        ck.enum(ex["h_c07_full_plain"], ["--len=2", "--salts=1", "--no-compress=1", "--extra=1", "--fp=0"], "full-l2", batch=1, deadline_s=40, timeout_ms=T)
+        ck.enum(ex["h_c07_small"], ["--len=1", "--salts=1", "--bin=1", "--deep=0", "--extra=0", "--fp=0"], "bin-l1", batch=1, deadline_s=45, timeout_ms=T)
     else:
+        ck.enum(ex["h_c07_small"], ["--len=1", "--salts=4", "--from=%d" % (4 * Q0), "--to=%d" % (4 * Q1)], "qualified-s4", batch=1, deadline_s=60, timeout_ms=T)
         ck.enum(ex["h_c07_small"], ["--len=2", "--prune-depth=8", "--salts=4", "--extra=2"], "small-l2-s4", batch=1, deadline_s=500, timeout_ms=T)
-        ck.enum(ex["h_c07_small_plain"], ["--len=3", "--salts=1", "--no-compress=1", "--extra=2"], "small-l3", batch=1, deadline_s=800, timeout_ms=T)
+        ck.enum(ex["h_c07_small_plain"], ["--len=3", "--salts=1", "--no-compress=1", "--extra=2"], "small-l3", batch=1, deadline_s=740, timeout_ms=T)
         ck.enum(ex["h_c07_full_plain"], ["--len=2", "--salts=4", "--no-compress=1", "--extra=1"], "full-l2-s4", batch=1, deadline_s=200, timeout_ms=T)
-        ck.enum(ex["h_c07_full_plain"], ["--len=0", "--prune-depth=3", "--salts=1", "--no-compress=1", "--extra=0"], "full-bfs3", batch=1, deadline_s=400, timeout_ms=T)
+        ck.enum(ex["h_c07_full_plain"], ["--len=0", "--prune-depth=3", "--salts=1", "--no-compress=1", "--extra=0", "--fp=0"], "full-bfs3", batch=1, deadline_s=400, timeout_ms=T)
         ck.enum(ex["h_c07_small"], ["--len=2", "--prune-depth=8", "--salts=4", "--bin=1", "--extra=1"], "bin-l2-s4", batch=1, deadline_s=500, timeout_ms=T)
     ck.finish(_cov(ck), assumptions=ASSUME)
 
